@@ -127,6 +127,12 @@ def run_prop_hypothesis(prop, ctx, n, seedval, tier):
         except BaseExceptionGroup as eg:  # noqa: F821
             if state["best"] is None:
                 raise
+        except Exception:
+            # harness code tripping over a result whose first defect was already reported (its assertion is now
+            # disabled and the case runs on): stop looking for further root causes, keep what was found
+            if not found:
+                raise
+            break
         if state["best"] is None:
             break
         _, spec, name, msg = state["best"]
@@ -140,6 +146,7 @@ def run_shard(args):
     t0 = time.time()
     out = {"shard": shard, "violations": [], "harness_error": None}
     try:
+        os.environ["VPM_PID"] = pid
         _prepare_imports()
         mod = load_module(pid)
         ctx = Ctx(pid, load_known_findings(), getattr(mod, "KNOWN_PREDICATES", {}), tier)
